@@ -52,153 +52,171 @@ func skipWhiteSpace(buf []byte, cursor int64) int64 {
 	return cursor
 }
 
+// The skip functions step over one JSON value and check it on the way: what a
+// destination ignores (an unknown member, the payload of a RawMessage or of an
+// Unmarshaler, a surplus array element, the part a path does not select) has to
+// be JSON too, as it has to be for encoding/json.
+
+// skipObject steps over the rest of an object; cursor stands behind its '{'.
 func skipObject(buf []byte, cursor, depth int64) (int64, error) {
-	braceCount := 1
+	cursor = skipWhiteSpace(buf, cursor)
+	if buf[cursor] == '}' {
+		return cursor + 1, nil
+	}
+	cursor, err := skipMember(buf, cursor, depth)
+	if err != nil {
+		return 0, err
+	}
+	return skipObjectRest(buf, cursor, depth)
+}
+
+// skipObjectRest steps over what is left of an object; cursor stands behind a member's value.
+func skipObjectRest(buf []byte, cursor, depth int64) (int64, error) {
 	for {
+		cursor = skipWhiteSpace(buf, cursor)
 		switch buf[cursor] {
-		case '{':
-			braceCount++
-			depth++
-			if depth > maxDecodeNestingDepth {
-				return 0, errors.ErrExceededMaxDepth(buf[cursor], cursor)
-			}
 		case '}':
-			depth--
-			braceCount--
-			if braceCount == 0 {
-				return cursor + 1, nil
+			return cursor + 1, nil
+		case ',':
+			c, err := skipMember(buf, skipWhiteSpace(buf, cursor+1), depth)
+			if err != nil {
+				return 0, err
 			}
-		case '[':
-			depth++
-			if depth > maxDecodeNestingDepth {
-				return 0, errors.ErrExceededMaxDepth(buf[cursor], cursor)
-			}
-		case ']':
-			depth--
-		case '"':
-			for {
-				cursor++
-				switch buf[cursor] {
-				case '\\':
-					cursor++
-					if buf[cursor] == nul {
-						return 0, errors.ErrUnexpectedEndOfJSON("string of object", cursor)
-					}
-				case '"':
-					goto SWITCH_OUT
-				case nul:
-					return 0, errors.ErrUnexpectedEndOfJSON("string of object", cursor)
-				}
-			}
+			cursor = c
 		case nul:
 			return 0, errors.ErrUnexpectedEndOfJSON("object of object", cursor)
+		default:
+			return 0, errors.ErrExpected("comma after object value", cursor)
 		}
-	SWITCH_OUT:
-		cursor++
 	}
 }
 
+// skipMember steps over a key, the colon and the value; cursor stands on the key's opening quote.
+func skipMember(buf []byte, cursor, depth int64) (int64, error) {
+	if buf[cursor] != '"' {
+		if buf[cursor] == nul {
+			return 0, errors.ErrUnexpectedEndOfJSON("object of object", cursor)
+		}
+		return 0, errors.ErrExpected("string for object key", cursor)
+	}
+	cursor, err := skipString(buf, cursor)
+	if err != nil {
+		return 0, err
+	}
+	cursor = skipWhiteSpace(buf, cursor)
+	if buf[cursor] != ':' {
+		return 0, errors.ErrExpected("colon after object key", cursor)
+	}
+	return skipValue(buf, cursor+1, depth)
+}
+
+// skipArray steps over the rest of an array; cursor stands behind its '['.
 func skipArray(buf []byte, cursor, depth int64) (int64, error) {
-	bracketCount := 1
+	cursor = skipWhiteSpace(buf, cursor)
+	if buf[cursor] == ']' {
+		return cursor + 1, nil
+	}
 	for {
+		c, err := skipValue(buf, cursor, depth)
+		if err != nil {
+			return 0, err
+		}
+		cursor = skipWhiteSpace(buf, c)
 		switch buf[cursor] {
-		case '[':
-			bracketCount++
-			depth++
-			if depth > maxDecodeNestingDepth {
-				return 0, errors.ErrExceededMaxDepth(buf[cursor], cursor)
-			}
 		case ']':
-			bracketCount--
-			depth--
-			if bracketCount == 0 {
-				return cursor + 1, nil
-			}
-		case '{':
-			depth++
-			if depth > maxDecodeNestingDepth {
-				return 0, errors.ErrExceededMaxDepth(buf[cursor], cursor)
-			}
-		case '}':
-			depth--
-		case '"':
-			for {
-				cursor++
-				switch buf[cursor] {
-				case '\\':
-					cursor++
-					if buf[cursor] == nul {
-						return 0, errors.ErrUnexpectedEndOfJSON("string of object", cursor)
-					}
-				case '"':
-					goto SWITCH_OUT
-				case nul:
-					return 0, errors.ErrUnexpectedEndOfJSON("string of object", cursor)
-				}
-			}
+			return cursor + 1, nil
+		case ',':
+			cursor++
 		case nul:
 			return 0, errors.ErrUnexpectedEndOfJSON("array of object", cursor)
+		default:
+			return 0, errors.ErrExpected("comma after array element", cursor)
 		}
-	SWITCH_OUT:
+	}
+}
+
+// skipString steps over a string literal; cursor stands on its opening quote.
+func skipString(buf []byte, cursor int64) (int64, error) {
+	for {
 		cursor++
+		switch c := buf[cursor]; {
+		case c == '"':
+			return cursor + 1, nil
+		case c == '\\':
+			cursor++
+			switch buf[cursor] {
+			case '"', '\\', '/', 'b', 'f', 'n', 'r', 't':
+			case 'u':
+				for i := int64(1); i <= 4; i++ {
+					if !isHexDigit(buf[cursor+i]) {
+						if buf[cursor+i] == nul {
+							return 0, errors.ErrUnexpectedEndOfJSON("escaped string", cursor+i)
+						}
+						return 0, errors.ErrSyntax("json: invalid character in \\u hexadecimal character escape", cursor+i)
+					}
+				}
+				cursor += 4
+			case nul:
+				return 0, errors.ErrUnexpectedEndOfJSON("string of object", cursor)
+			default:
+				return 0, errors.ErrSyntax("json: invalid character in string escape code", cursor)
+			}
+		case c == nul:
+			return 0, errors.ErrUnexpectedEndOfJSON("string of object", cursor)
+		case c < 0x20:
+			return 0, errors.ErrSyntax("json: invalid character in string literal", cursor)
+		}
 	}
 }
 
 func skipValue(buf []byte, cursor, depth int64) (int64, error) {
-	for {
-		switch buf[cursor] {
-		case ' ', '\t', '\n', '\r':
-			cursor++
-			continue
-		case '{':
-			return skipObject(buf, cursor+1, depth+1)
-		case '[':
-			return skipArray(buf, cursor+1, depth+1)
-		case '"':
-			for {
-				cursor++
-				switch buf[cursor] {
-				case '\\':
-					cursor++
-					if buf[cursor] == nul {
-						return 0, errors.ErrUnexpectedEndOfJSON("string of object", cursor)
-					}
-				case '"':
-					return cursor + 1, nil
-				case nul:
-					return 0, errors.ErrUnexpectedEndOfJSON("string of object", cursor)
-				}
-			}
-		case '-', '0', '1', '2', '3', '4', '5', '6', '7', '8', '9':
-			for {
-				cursor++
-				if floatTable[buf[cursor]] {
-					continue
-				}
-				break
-			}
-			return cursor, nil
-		case 't':
-			if err := validateTrue(buf, cursor); err != nil {
-				return 0, err
-			}
-			cursor += 4
-			return cursor, nil
-		case 'f':
-			if err := validateFalse(buf, cursor); err != nil {
-				return 0, err
-			}
-			cursor += 5
-			return cursor, nil
-		case 'n':
-			if err := validateNull(buf, cursor); err != nil {
-				return 0, err
-			}
-			cursor += 4
-			return cursor, nil
-		default:
-			return cursor, errors.ErrUnexpectedEndOfJSON("null", cursor)
+	cursor = skipWhiteSpace(buf, cursor)
+	switch buf[cursor] {
+	case '{':
+		if depth+1 > maxDecodeNestingDepth {
+			return 0, errors.ErrExceededMaxDepth(buf[cursor], cursor)
 		}
+		return skipObject(buf, cursor+1, depth+1)
+	case '[':
+		if depth+1 > maxDecodeNestingDepth {
+			return 0, errors.ErrExceededMaxDepth(buf[cursor], cursor)
+		}
+		return skipArray(buf, cursor+1, depth+1)
+	case '"':
+		return skipString(buf, cursor)
+	case '-', '0', '1', '2', '3', '4', '5', '6', '7', '8', '9':
+		start := cursor
+		for {
+			cursor++
+			if floatTable[buf[cursor]] {
+				continue
+			}
+			break
+		}
+		if !validNumber(buf[start:cursor]) {
+			return 0, errors.ErrSyntax("json: invalid number literal", start)
+		}
+		return cursor, nil
+	case 't':
+		if err := validateTrue(buf, cursor); err != nil {
+			return 0, err
+		}
+		cursor += 4
+		return cursor, nil
+	case 'f':
+		if err := validateFalse(buf, cursor); err != nil {
+			return 0, err
+		}
+		cursor += 5
+		return cursor, nil
+	case 'n':
+		if err := validateNull(buf, cursor); err != nil {
+			return 0, err
+		}
+		cursor += 4
+		return cursor, nil
+	default:
+		return cursor, errors.ErrUnexpectedEndOfJSON("null", cursor)
 	}
 }
 
